@@ -143,8 +143,20 @@ func Main(args []string) error {
 			}
 			reps = append(reps, sel{rt, "Manifest_thumbs.mpd"})
 		}
+		// audio AdaptationSet: its timeline follows the video grid (C03 decides the grid itself); here the declared
+		// entries must be served with the declared time/duration and the one after the edge refused. Times are
+		// carried as pairs over the video loop expressed in audio ticks (a synthetic one-segment layout).
+		if a.Audio != nil && (a.LoopMS*a.Audio.TS)%1000 == 0 && !*nofetch { // (the MPD-only sweeps of C05 gain nothing from it)
+			pa := a.LoopMS * a.Audio.TS / 1000
+			art := &project.RepTruth{ID: a.Audio.ID, Kind: "audio", TS: a.Audio.TS, N: 1, Dur: []int64{pa}, L: pa,
+				MediaPat: a.Audio.MediaPat, Trex: a.Audio.Trex}
+			reps = append(reps, sel{art, a.MPD})
+		}
 		for _, rs := range reps {
 			for _, cs := range cfgs {
+				if rs.rt.Kind == "audio" && cs.mode == "number" {
+					continue // $Number$ template of audio: see C03.mpd
+				}
 				if rs.rt.Kind == "image" && cs.mode != "number" {
 					continue // thumbnails are always addressed by number
 				}
@@ -162,7 +174,11 @@ func Main(args []string) error {
 		j := jobs[idx]
 		a, rt, cs := j.a, j.rt, j.cs
 		rng := rand.New(rand.NewSource(j.seed))
-		segMS := rt.Dur[0] * 1000 / rt.TS
+		brk := rt // representation whose availability breakpoints are swept
+		if rt.Kind == "audio" {
+			brk = a.Video
+		}
+		segMS := brk.Dur[0] * 1000 / brk.TS
 		ato := atoMS(cs.atoKind, segMS)
 		c := tl.Cfg{Mode: cs.mode, SNR: cs.snr, AST: cs.ast, TSBD: cs.tsbd, AtoMS: ato}
 		stop := int64(-1)
@@ -172,23 +188,24 @@ func Main(args []string) error {
 		}
 		emit(tl.HeaderE(idx, a, rt, c, tr.E{"stop": stop}))
 		N := int64(rt.N)
+		BN := int64(brk.N)
 		loopMS := rt.L * 1000 / rt.TS
 		tsbdMS := c.EffTSBD() * 1000
 		// instants (relative to AST): breakpoints of the piecewise-constant behaviour +-1 ms
 		inst := map[int64]bool{0: true, 1: true}
 		var ns []int64
-		for n := int64(0); n <= N+2; n++ {
+		for n := int64(0); n <= BN+2; n++ {
 			ns = append(ns, n)
 		}
 		for _, k := range []int64{2, 1000} {
-			ns = append(ns, k*N-1, k*N, k*N+1)
+			ns = append(ns, k*BN-1, k*BN, k*BN+1)
 		}
 		if cs.ast == 0 {
-			kf := int64(1_750_000_000) * rt.TS / rt.L
-			ns = append(ns, kf*N-1, kf*N, kf*N+1+int64(rng.Intn(int(N))))
+			kf := int64(1_750_000_000) * brk.TS / brk.L
+			ns = append(ns, kf*BN-1, kf*BN, kf*BN+1+int64(rng.Intn(int(BN))))
 		}
 		for _, n := range ns {
-			av := tl.AvailRelMS(rt, n, ato)
+			av := tl.AvailRelMS(brk, n, ato)
 			for _, base := range []int64{av, av + tsbdMS} {
 				if *dense {
 					for d := int64(-3); d <= 3; d++ {
